@@ -19,20 +19,24 @@ Init ==
   \* parser that accepts such a message must still re-serialise it faithfully: C11)
   \/ /\ rc \in {0, 16} /\ ver \in {0, 3} /\ nar \in 0 .. 2 /\ pos \in 0 .. nar
      /\ udp = 1232 /\ opts = <<<<3, <<9>>>>>> /\ dobit = 0 /\ two = TRUE
+  \* response codes the library has no name for (unassigned low nibble 11..15, unassigned 12-bit values):
+  \* shown as "reserved", and whatever is shown must survive re-serialisation (C11)
+  \/ /\ rc \in {11, 13, 15, 27, 31, 2049, 4095} /\ ver = 0 /\ nar \in 0 .. 1 /\ pos = 0
+     /\ udp = 1232 /\ opts = <<<<3, <<9>>>>>> /\ dobit = 0 /\ two = FALSE
   \/ /\ rc = 16 /\ ver = 0 /\ nar = 1 /\ pos \in 0 .. 1
      /\ udp \in {0, 512, 65535} /\ opts \in Dom(Tlv) /\ dobit \in {0, 128} /\ two = FALSE
 Next == UNCHANGED vars
 Spec == Init /\ [][Next]_vars
 
 OptRR == [name |-> <<>>, type |-> 41, class |-> udp, cf |-> FALSE,
-          ttl |-> <<rc \div 16, ver, dobit, 0>>, rd |-> <<opts>>]
+          ttl |-> <<(rc \div 16) % 256, ver, dobit, 0>>, rd |-> <<opts>>]
 Others == [i \in 1 .. nar |-> Other(i)]
 Opt2 == [name |-> <<>>, type |-> 41, class |-> 4096, cf |-> FALSE, ttl |-> <<1, 1, 0, 0>>, rd |-> <<<<<<10, <<1, 2, 3, 4, 5, 6, 7, 8>>>>>>>>]
 ArRaw == SubSeq(Others, 1, pos) \o <<OptRR>> \o SubSeq(Others, pos + 1, nar) \o (IF two THEN <<Opt2>> ELSE <<>>)
 
 Msg == HdrEncode(7, {"qr", "ra"}, 0, rc % 16, 0, 0, 0, Len(ArRaw)) \o CatMap(EncRecord, ArRaw)
 
-Expected == [id |-> 7, fs |-> MaskOf({"qr", "ra"}), opcode |-> 0, rcode |-> rc,
+Expected == [id |-> 7, fs |-> MaskOf({"qr", "ra"}), opcode |-> 0, rcode |-> Obs(rc, NamedRcodes),
              opt |-> <<[udp |-> udp, version |-> ver, options |-> opts]>>,
              qd |-> <<>>, an |-> <<>>, ns |-> <<>>, ar |-> Others \o (IF two THEN <<Opt2>> ELSE <<>>)]
 
